@@ -18,6 +18,7 @@ Over M7 `Tank` (update_tank_heads, numpy.interp with clamping, TankLevelConditio
 -/
 import WntrModel.Model.Tank
 import WntrModel.Lemmas.TankInterp
+import WntrModel.Lemmas.TankRun
 import Mathlib.Tactic.Ring
 import Mathlib.Tactic.Linarith
 import Mathlib.Tactic.FieldSimp
@@ -181,6 +182,47 @@ theorem volume_trace_is_integral_partial (pi : Rat) (t : Tank) (c : List (Rat ×
     rw [stepHead_eq] at *
     simp only [level] at *
     linarith
+
+/-! ### the level trace along the run -/
+
+open Wntr.TankRun in
+/-- along the whole run (M5c `TankRun.run`, arbitrary `solve`, partial steps, re-solves within a step, any number of
+`update_tank_heads` calls): every saved row follows the previous one by ONE Euler step from the previous row's heads with the
+previous row's reported demands over the elapsed time -/
+theorem rows_chain_along_run (cfg : Cfg) (n : Nat) (links : Controls.Links) (heads lasts : List Rat) :
+    Chain cfg (run cfg n (init links heads lasts)).rows :=
+  (run_chain cfg n _ (by simp [init, Chain]) (by simp [init, Synced])).1
+
+open Wntr.TankRun in
+/-- `level_trace_is_integral` for consecutive reported rows of the run, cylinder tank `i`:
+`A·(h₂ − h₁) = q₁·(t₂ − t₁)` with `q₁` the demand REPORTED at the earlier row -/
+theorem level_trace_is_integral_run (cfg : Cfg) (r2 r1 : TankRun.Row) (hF : Follows cfg r2 r1) (i : Nat) (t : Tank)
+    (ht : cfg.tanks[i]? = some t) (hc : t.curve = none) (hpi : 0 < cfg.pi) (hd : t.diam ≠ 0) (h1 q h2 : Rat)
+    (e1 : r1.heads[i]? = some h1) (eq : r1.demand[i]? = some q) (e2 : r2.heads[i]? = some h2) :
+    area cfg.pi t * (h2 - h1) = q * ((r2.time - r1.time : Int) : Rat) := by
+  obtain ⟨hs, hF⟩ := hF
+  rw [hF] at e2
+  obtain ⟨t', p, h, q', a, b, _, d, e⟩ := updHeads_get_inv _ _ _ _ _ _ _ _ e2
+  rw [ht] at a; rw [e1] at b; rw [eq] at d
+  cases a; cases b; cases d
+  rw [e]
+  exact cylinder_euler_exact cfg.pi t hc hpi hd h1 h q _
+
+open Wntr.TankRun in
+/-- the same for a volume-curve tank while the step stays inside the curve -/
+theorem volume_trace_is_integral_run_partial (cfg : Cfg) (r2 r1 : TankRun.Row) (hF : Follows cfg r2 r1) (i : Nat) (t : Tank)
+    (c : List (Rat × Rat)) (ht : cfg.tanks[i]? = some t) (hc : t.curve = some c) (hI : IncrCurve c) (h1 q h2 : Rat)
+    (e1 : r1.heads[i]? = some h1) (eq : r1.demand[i]? = some q) (e2 : r2.heads[i]? = some h2)
+    (hin0 : curveLoY c ≤ getVolume cfg.pi t (h1 - t.elev) + q * ((r2.time - r1.time : Int) : Rat))
+    (hin1 : getVolume cfg.pi t (h1 - t.elev) + q * ((r2.time - r1.time : Int) : Rat) ≤ curveHiY c) :
+    getVolume cfg.pi t (level t h2) - getVolume cfg.pi t (level t h1) = q * ((r2.time - r1.time : Int) : Rat) := by
+  obtain ⟨hs, hF⟩ := hF
+  rw [hF] at e2
+  obtain ⟨t', p, h, q', a, b, _, d, e⟩ := updHeads_get_inv _ _ _ _ _ _ _ _ e2
+  rw [ht] at a; rw [e1] at b; rw [eq] at d
+  cases a; cases b; cases d
+  rw [e, volcurve_euler_exact cfg.pi t c hc hI h1 h q _ hin0 hin1]
+  simp [level]
 
 /-! ### limits: the backtrack floor -/
 
